@@ -4,6 +4,7 @@ from datetime import timedelta
 from .. import hooks
 from ..gen import canon, mk_event, rand_grid, td_us
 from ..model import norm, pairwise_disjoint, subset, subtract
+from . import _tx
 from ._tx import exc_viol, is_event_list, iv, snap, tmod, unmodified
 
 ID = "C10"
@@ -77,6 +78,7 @@ def monitors():
 
 
 def setup(ctx):
+    import aw_query.functions  # noqa: F401 - its aliases of the transforms must exist before they are patched
     for m, n, pre, post in monitors():
         MON[n] = hooks.Monitor(m, n, pre, post).install()
 
@@ -135,6 +137,8 @@ def _cls(a, b, data_same, pu):
 
 
 def run_case(case, ctx):
+    if case.get("kind") == "query":
+        return _tx.run_query_case(case, ctx, MON)
     events = [mk_event(s) for s in case["events"]]
     p = case["p"]
     pu = td_us(timedelta(seconds=p))
@@ -150,3 +154,13 @@ def run_case(case, ctx):
     if not dom:
         ctx.count("generator_out_of_domain")
     return viols, dict(sig=sig, nontrivial=nontriv and dom)
+
+
+def worker(ctx):
+    """direct driver + the same monitors under generated query programs (+ the repository's tests, thorough tier)"""
+    import sys
+    from ..worker import default_worker
+    _tx.query_workload(ctx, MON, 400 if ctx.tier == "quick" else 6000, ID)
+    if ctx.tier == "thorough" and ctx.widx == 0:
+        _tx.pytest_workload(ctx, ID)
+    default_worker(sys.modules[__name__], ctx)
